@@ -15,6 +15,7 @@ kind, lock operations with their enclosing function, a name-based over-approxima
     lock then ends the request with an error answer) and not by `.unwrap()` / `.expect(..)` (which would panic);
   * `edges` — call edges inside the two crates;
   * `evalEntries` — the functions named `evaluate_invocable` (the way into the evaluator);
+  * `underLock` — bit mask of the functions called (transitively) by a function that performs a lock operation;
   * `reachesEval` — bit mask of the functions FROM WHICH an entry is reachable (backward closure: the Lean side
     re-checks that it contains the entries and is closed under the edges read backwards).
 
@@ -135,6 +136,20 @@ def main():
     ops = [(f, k, recv, ln) for f in fns for (k, recv, ln) in f.ops]
     ops += [(f, "atomic", recv, ln) for f in fns for (_, recv, ln) in f.atomic_ops if recv in known_recv]
 
+    # the functions called, directly or through other functions, by a function that performs a lock operation
+    succ = {}
+    for x, y in edges:
+        succ.setdefault(x, []).append(y)
+    lockers = {f.id for (f, k, recv, ln) in ops}
+    under, todo = set(), [y for x in lockers for y in succ.get(x, [])]
+    while todo:
+        x = todo.pop()
+        if x in under:
+            continue
+        under.add(x)
+        todo.extend(succ.get(x, []))
+    under_mask = sum(1 << i for i in under)
+
     def guarded(f, ln):
         """The statement around a lock operation on line `ln`: `if let Ok(..) = X.read() {`, `match X.write() {`, or a
         `?` / `.map_err(..)?` — anything but `.unwrap()` / `.expect(` directly on the result."""
@@ -202,6 +217,10 @@ def main():
     w("/-- bit `i` set ⇔ an entry is reachable from function `i` -/")
     w("def reachesEval : Nat := 0x%x" % mask)
     w("")
+    w("/-- bit `i` set ⇔ function `i` is called, directly or through other functions, by a function that performs a lock")
+    w("operation: what runs while a lock of this table may be held (forward closure; the Lean side checks closedness) -/")
+    w("def underLock : Nat := 0x%x" % under_mask)
+    w("")
     w("def ops : List Op := [")
     for i, (f, k, recv, ln) in enumerate(ops):
         cands = field_index.get(recv, [])
@@ -227,7 +246,7 @@ def main():
         "translator": "server_state.py", "files": n_files, "functions": len(fns), "edges": len(edges), "entries": [f.qname for f in entries],
         "reaches_eval": len(seen), "lock_ops": len(ops), "read_ops": len([o for o in ops if o[1] == "read"]), "write_ops": len([o for o in ops if o[1] == "write"]),
         "write_ops_reaching_eval": len([o for o in ops if o[1] != "read" and o[0].id in seen]), "unguarded_ops": len([o for o in ops if not guarded(o[0], o[3])]),
-        "locations": len(locations), "changed": changed, "notes": notes[:10],
+        "under_lock": len(under), "lockers_under_lock": len(lockers & under), "locations": len(locations), "changed": changed, "notes": notes[:10],
     }))
     return 0
 
